@@ -189,7 +189,9 @@ def run(R, env):
                         for s_ in subterms(den):
                             if s_[0] == "call" and s_[1].endswith("Argument::new_display"):
                                 fargs.append(s_[2][0])
-                    fl = [f for f in prog.formats if f["crate"] == CRATE and f["file"] == ih.body.span["file"] and f["pieces"] and f["pieces"][0].get("lit", "").startswith("factory/")]
+                    # (the template may sit in a helper / method that instantiate calls, e.g. InstantiateMsg::validate)
+                    rfiles = set(prog.bodies[k_].span["file"] for k_ in reachable_bodies(prog, [ih.body.key]) if k_ in prog.bodies and prog.bodies[k_].crate == CRATE)
+                    fl = [f for f in prog.formats if f["crate"] == CRATE and f["file"] in rfiles and f["pieces"] and f["pieces"][0].get("lit", "").startswith("factory/")]
                     tmpl_ok = len(fl) == 1 and [p.get("lit", "{%s}" % p.get("arg")) for p in fl[0]["pieces"]] == ["factory/", "{0}", "/", "{1}"]
                     args_ok = len(fargs) == 2 and is_contract_addr(fargs[0]) and fargs[1][0] == "payload" and any(s_[0] == "field" and s_[2] == "liquid_stake_token_denom" for s_ in subterms(fargs[1]))
                     # the validated sub-denom is the SAME string that create-denom receives: the validator returns its input
